@@ -221,6 +221,13 @@ class Engine:
             env[u.kwarg_name] = self.make_param(it, st, u.kwarg_name, 'kwargs', 40)
         cls = fi.cls.name if (fi is not None and fi.cls) else u.opts.get('cls')
         st.frames.append(Frame(fi, env, cls))
+        if fi is not None and u.opts.get('replay') == 'native':
+            # terms that describe the inputs of this unit (read back from a counter-model for the native replay)
+            try:
+                from nreplay import extract as _nx
+                st.ghost['replay_plan'] = _nx.plan(self, it, st, env)
+            except Exception:
+                st.ghost['replay_plan'] = None
         st.clock = z3.Real('clock0')
         st.pc.append(st.clock > 0)      # time.time() is seconds since the epoch
         st.ghost['names'] = {}
